@@ -401,6 +401,10 @@ impl CompactionWorker {
                     new_level = compaction_manifest.level() + 1,
                     level_summary = db_fields_guard.version_set.level_summary()
                 );
+
+                // Release the version the compaction was planned against. Otherwise it stays in
+                // the version set forever and every table it references is never reclaimed.
+                compaction_manifest.release_inputs(&mut db_fields_guard.version_set);
             } else {
                 let compaction_result = CompactionWorker::compact_tables(
                     db_state,
